@@ -2,6 +2,7 @@ import QipVerif.Lemmas.ZyzExact
 import QipVerif.Lemmas.ZyzCphase
 import QipVerif.Lemmas.ZyzQftList
 import QipVerif.Lemmas.ZyzQftSem
+import QipVerif.Lemmas.ZyzQftSmall
 /-!
 # C17 — single-qubit decompositions and QFT circuits are exact
 
@@ -120,5 +121,19 @@ theorem qft_indices_in_range (N : Nat) (sw cn : Bool) (gs : List Qft.Gate)
   Qft.gateSequence_qubits N sw cn gs h
 
 example : ∃ gs, Qft.gateSequence 4 true true = some gs ∧ gs.length = 42 := ⟨_, rfl, by decide⟩
+
+/-! ## (5) QFT = DFT: FINITE INSTANCES ONLY (N ≤ 4) — this is a kernel-evaluated test, not the property -/
+
+/-- For N = 1, 2, 3, 4 the model's circuit (with swaps, native controlled phases) maps every basis vector to
+the corresponding column of `√(2^N)·DFT` (each Hadamard taken as `√2·H`), in exact ℤ[e^{2πi/16}] arithmetic
+with the state-vector semantics of `Lemmas/ZyzQftSmall.lean`.  The identity for general `N` is NOT proved. -/
+theorem qft_eq_dft_le4 :
+    QftSmall.qftCheck 1 = true ∧ QftSmall.qftCheck 2 = true ∧ QftSmall.qftCheck 3 = true ∧ QftSmall.qftCheck 4 = true :=
+  QftSmall.qft_eq_dft_le4
+
+-- the checker is not vacuous: without the final swaps the column of |01⟩ is not the DFT column
+example : (match Qft.gateSequence 2 false false with
+    | some gs => QftSmall.run 2 gs (QftSmall.basis 2 1) == some (QftSmall.dftCol 2 1)
+    | none => false) = false := by decide +kernel
 
 end QipVerif.C17
